@@ -12,13 +12,20 @@
 use rust_dsymbols::covers::finite_universal_cover;
 use rust_dsymbols::delaney2d::is_spherical;
 use rust_dsymbols::derived::{canonical, cover};
-use rust_dsymbols::dsyms::{minimal_traversal_code, PartialDSym, TraversalCode};
+use rust_dsymbols::dsyms::{minimal_traversal_code, PartialDSym, SimpleDSym, TraversalCode};
 use std::collections::BTreeMap;
 use verif_harness::dsgen::{all_vs, dsets, random_perm1, random_vs, Tab};
 use verif_harness::{enc_list, Ctx, Rng};
 
 fn canon_tab(t: &Tab) -> Tab {
     Tab::from_dsym(&canonical(&t.to_partial_dsym()))
+}
+
+/// the same symbol held as a SimpleDSym (the representation the generators and `From` produce):
+/// `canonical`, `TraversalCode` are generic over the DSym trait and read r/v/m through its impl
+fn canon_tab_simple(t: &Tab) -> Tab {
+    let s: SimpleDSym = t.to_partial_dsym().into();
+    Tab::from_dsym(&canonical(&s))
 }
 
 /// brute-force isomorphism test, used for tagging only (the verdict is the Lean Spec's)
@@ -97,6 +104,43 @@ fn run_symbol(ctx: &mut Ctx, t: &Tab, perms: &[Vec<usize>], tag: &str) {
         let c2 = canonical(&c1);
         format!("{} {}", Tab::from_dsym(&c1).enc(), Tab::from_dsym(&c2).enc())
     });
+    // the SimpleDSym representation (added after seeded change C03-m8: two cooperating edits made
+    // traversal codes of SimpleDSym carry r instead of v; every case so far held a PartialDSym)
+    if t.size <= 40 {
+        ctx.case("canon_s", tag, || t.enc(), || {
+            let ds: SimpleDSym = t.to_partial_dsym().into();
+            let c = Tab::from_dsym(&canonical(&ds));
+            let mut tc = minimal_traversal_code(&ds);
+            let code = tc.get_code();
+            let map = tc.get_map();
+            format!("{} {} {}", c.enc(), enc_list(&code), enc_list(&map))
+        });
+        if !perms.is_empty() {
+            let ps = &perms[..perms.len().min(3)];
+            ctx.case(
+                "renum_s",
+                tag,
+                || {
+                    let mut s = format!("{} {}", t.enc(), ps.len());
+                    for p in ps {
+                        s.push(' ');
+                        s.push_str(&enc_list(p));
+                        s.push(' ');
+                        s.push_str(&t.renumbered(p).enc());
+                    }
+                    s
+                },
+                || {
+                    let mut s = canon_tab_simple(t).enc();
+                    for p in ps {
+                        s.push(' ');
+                        s.push_str(&canon_tab_simple(&t.renumbered(p)).enc());
+                    }
+                    s
+                },
+            );
+        }
+    }
     if t.size <= 130 {
         ctx.case("seeds", tag, || t.enc(), || {
             let ds = t.to_partial_dsym();
